@@ -34,13 +34,13 @@ inline GenCfg profile_cfg(int profile, Rng& rng, bool faults) {
   w[OP_EXPECT] = 22; w[OP_RELEASE] = 6; w[OP_ABANDON] = 1; w[OP_CALL] = 40; w[OP_Q_COMPLETED] = 1;
   w[OP_NEW_WATCHED] = 1; w[OP_DESTROY_WATCHED] = 1; w[OP_COPY_WATCHED] = 0; w[OP_MOVECONS_WATCHED] = 0; w[OP_ASSIGN_WATCHED] = 0;
   w[OP_REQ_DESTRUCTION] = 1; w[OP_RELEASE_MON] = 1; w[OP_PUSH_TRACER] = 1; w[OP_POP_TRACER] = 1; w[OP_SET_REPORTER] = 1; w[OP_MUTATE] = 2;
-  c.nested_pct = 8; c.fault_pct = 6;
+  c.nested_pct = 14; c.fault_pct = 10;
   switch (profile) {
     case PF_BOUNDS: w[OP_CALL] = 60; w[OP_EXPECT] = 20; c.inverted_pct = 6; break;
     case PF_LIFETIME: w[OP_RELEASE] = 14; w[OP_DESTROY_MOCK] = 8; w[OP_MOVE_MOCK] = 6; w[OP_ABANDON] = 3; w[OP_NEW_MOCK] = 8; break;
     case PF_SEQ: w[OP_NEW_SEQ] = 4; w[OP_DESTROY_SEQ] = 2; w[OP_Q_COMPLETED] = 3; w[OP_REQ_DESTRUCTION] = 4; w[OP_NEW_WATCHED] = 3; w[OP_DESTROY_WATCHED] = 4; w[OP_RELEASE] = 8; break;
     case PF_FORBID: w[OP_RELEASE] = 10; break;
-    case PF_CLAUSES: c.nested_pct = 25; c.fault_pct = 20; w[OP_MUTATE] = 10; break;
+    case PF_CLAUSES: c.nested_pct = 35; c.fault_pct = 25; w[OP_MUTATE] = 10; break;
     case PF_WATCHED: w[OP_NEW_WATCHED] = 12; w[OP_DESTROY_WATCHED] = 12; w[OP_COPY_WATCHED] = 4; w[OP_MOVECONS_WATCHED] = 4; w[OP_ASSIGN_WATCHED] = 5;
       w[OP_REQ_DESTRUCTION] = 16; w[OP_RELEASE_MON] = 10; w[OP_CALL] = 10; w[OP_EXPECT] = 8; w[OP_NEW_SEQ] = 3; w[OP_ABANDON] = 2; break;
     case PF_DESTROY: w[OP_DESTROY_MOCK] = 8; w[OP_MOVE_MOCK] = 8; w[OP_DESTROY_SEQ] = 6; w[OP_MOVE_SEQ] = 4; w[OP_NEW_SEQ] = 6; w[OP_RELEASE] = 10; w[OP_ABANDON] = 3;
@@ -67,7 +67,7 @@ inline GenCfg profile_cfg(int profile, Rng& rng, bool faults) {
 inline bool shape_fits(int profile, const ShapeDesc& d, Rng& rng) {
   switch (profile) {
     case PF_BOUNDS: return d.bf != BF_DEFAULT || rng.chance(1, 4);
-    case PF_SEQ: return d.nseq > 0 || rng.chance(1, 5);
+    case PF_SEQ: return (d.nseq > 0 && (d.L == 0 || d.runtime_bounds() || rng.chance(1, 2))) || rng.chance(1, 6);
     case PF_FORBID: return d.bf == BF_FORBID || d.bf == BF_T0 || d.bf == BF_ALLOW || d.runtime_bounds() || rng.chance(1, 3);
     case PF_CLAUSES: return d.nse + d.nwith >= 1 || rng.chance(1, 6);
     case PF_TRACE: return true;
@@ -86,6 +86,7 @@ class Generator {
     // which functions this run concentrates on (dense interaction)
     nfocus_ = rng_.range(1, 3);
     for (int i = 0; i < nfocus_; ++i) focus_[i] = pick_fn();
+    focus_mock_ = rng_.below(8);
     p.tasks.resize(1);
     auto& ops = p.tasks[0];
     // a little population first
@@ -113,6 +114,7 @@ class Generator {
   GenCfg cfg_;
   int focus_[3] = {0, 0, 0};
   int nfocus_ = 1;
+  int focus_mock_ = 0;
 
   static Op mk(int kind, int a0 = 0, int a1 = 0) { Op o; o.kind = kind; o.a[0] = a0; o.a[1] = a1; return o; }
   void emit(std::vector<Op>& ops, const Op& o) { ops.push_back(o); shadow_.step_shadow(o); }
@@ -133,7 +135,7 @@ class Generator {
       if (shape_fits(profile_, d, rng_)) break;
     }
     o.a[0] = shape;
-    o.a[1] = rng_.below(8);
+    o.a[1] = rng_.chance(3, 4) ? focus_mock_ : rng_.below(8);
     o.a[2] = rng_.below(5); o.a[3] = rng_.below(5); o.a[4] = rng_.below(6);
     int lo = rng_.below(4), hi = lo + rng_.below(3);
     if (rng_.below(100) < cfg_.inverted_pct) { lo = rng_.range(1, 4); hi = rng_.below(lo); }
@@ -146,7 +148,17 @@ class Generator {
     Op o; o.kind = OP_CALL;
     const Model& M = shadow_.model();
     std::vector<int> live = M.live_mocks();
-    int mock_sel = rng_.below(8), fn = focus_[rng_.below(nfocus_)];
+    int mock_sel = rng_.chance(3, 4) ? focus_mock_ : rng_.below(8), fn = focus_[rng_.below(nfocus_)];
+    if (!live.empty() && rng_.chance(19, 20)) {
+      // prefer a mock that has expectations attached
+      for (int t = 0; t < 8; ++t) {
+        const MMock& mm = M.mocks[static_cast<size_t>(live[static_cast<size_t>(mock_sel) % live.size()])];
+        bool any = false;
+        for (int f = 0; f < NFN; ++f) if (!mm.active[f].empty() || !mm.saturated[f].empty()) any = true;
+        if (any) break;
+        mock_sel = rng_.below(8);
+      }
+    }
     int a0 = rng_.below(7), a1 = rng_.below(7);
     if (!live.empty()) {
       int mid = live[static_cast<size_t>(mock_sel) % live.size()];
@@ -154,14 +166,20 @@ class Generator {
       std::vector<int> cands;
       for (int f = 0; f < NFN; ++f) for (int e : M.mocks[static_cast<size_t>(mid)].active[f]) { cands.push_back(e); (void)f; }
       for (int f = 0; f < NFN; ++f) for (int e : M.mocks[static_cast<size_t>(mid)].saturated[f]) if (rng_.chance(1, 2)) cands.push_back(e);
-      if (!cands.empty() && rng_.chance(9, 10)) {
-        const MExp& e = M.exps[static_cast<size_t>(cands[static_cast<size_t>(rng_.below(static_cast<int>(cands.size())))])];
+      if (!cands.empty() && rng_.chance(19, 20)) {
+        int pickid = cands[static_cast<size_t>(rng_.below(static_cast<int>(cands.size())))];
+        if (rng_.chance(3, 4)) {  // mostly aim at something that is callable right now
+          std::vector<int> callable;
+          for (int c : cands) { const MExp& ce = M.exps[static_cast<size_t>(c)]; if (ce.attached && !ce.in_saturated && !ce.forb() && M.cost(ce) >= 0) callable.push_back(c); }
+          if (!callable.empty()) pickid = callable[static_cast<size_t>(rng_.below(static_cast<int>(callable.size())))];
+        }
+        const MExp& e = M.exps[static_cast<size_t>(pickid)];
         fn = e.fn;
         const ShapeDesc& d = e.sd();
         int vals[2] = {a0, a1};
         for (int i = 0; i < fn_desc(fn).arity; ++i) {
           int ov = e.v[d.m[i].vi];
-          static const int delta[] = {0, 0, 0, 0, 1, -1, 2, 1};
+          static const int delta[] = {0, 0, 0, 0, 0, 1, -1, 2};
           vals[i] = ov + delta[rng_.below(8)];
           if (d.m[i].kind == MK_ANY || d.m[i].kind == MK_TYPEDANY) if (rng_.chance(1, 2)) vals[i] = rng_.below(6);
         }
@@ -205,8 +223,15 @@ class Generator {
     }
   }
 
+  bool any_callable_target() {
+    const Model& M = shadow_.model();
+    for (auto& m : M.mocks) if (m.alive) for (int f = 0; f < NFN; ++f) if (!m.active[f].empty()) return true;
+    return false;
+  }
+
   Op gen_op(int depth) {
     int k = rng_.pick(cfg_.w, OP_KIND_COUNT);
+    if (k == OP_CALL && !any_callable_target() && rng_.chance(9, 10)) k = OP_EXPECT;
     return gen_kind(k, depth);
   }
 };
